@@ -115,9 +115,10 @@ def pos_jobs(ctx, nq, nt, moves, checked, lgq, lgt, families=True):
 
 
 PROPS["C01"] = dict(
+    coq_sample=64,
     jobs=lambda ctx: pos_jobs(ctx, 1300, 60000, 0, 1, 40, 40),
     relevant=r"legal-moves|len/size_hint|model:len|is_legal|LG|accept exactly legal|position-rejected|harness-crash",
-    rule=POS_RULE + "; per position: legals() as a sorted set and its len/size_hint/is_empty against Rules.legal_moves, is_legal on random / near-miss / "
+    rule=POS_RULE + "; 64 sampled positions are also re-evaluated inside Coq (vm_compute, no extraction); per position: legals() as a sorted set and its len/size_hint/is_empty against Rules.legal_moves, is_legal on random / near-miss / "
          "legal triples, and on every 40th position the full set {m | is_legal m} over all 20480 triples; systematic en-passant family "
          "(own king x capturer x double-stepped pawn x one enemy slider; quick: 1/40 sample, thorough: all), pin family (own king x 8 directions x distances x pinned piece type x pinner type, + a random extra enemy man; quick: 16 random 1/64 samples, thorough: 16 x 1/2) castling family (both kings at home + one extra man of any kind on any square, or the enemy king anywhere instead of at home; all rights subsets), the check-giving families of C03 (successors of e.p., promotion, castling, discovered checks) and, thorough only, the EXHAUSTIVE family of all accepted placements of both kings plus one extra man, either side to move (thorough)",
     trusted_base=CORE_TRUST,
